@@ -1,8 +1,8 @@
-\* generation (thorough): every transition of clusters of 1..5 members and <= 4 accepted changes
+\* generation (thorough): every transition of clusters of 1..5 members and <= 3 accepted changes
 SPECIFICATION Spec
 CONSTANTS
   MaxMembers = 5
-  MaxChanges = 4
+  MaxChanges = 3
   InitSizes <- S15
 VIEW viewM
 ACTION_CONSTRAINT GenLog
